@@ -25,11 +25,13 @@ theorem originLag_eq (d : Date) :
     devLagMonths ⟨1969, 12, 31⟩ d = (monthToId d : Rat) + (d.d : Rat) / (dim d.y d.m : Rat) :=
   initLag_eq d
 
--- OPEN addMonths_devLag
+-- REFUTED addMonths_devLag
 --   theorem addMonths_devLag (p e : Date) (hp : p.valid) (he : e.valid) :
 --       addMonths p (devLagMonths p e) = e
--- FALSE for the code as it stands (finding D8, `int()` truncates toward zero); refuted below, and
--- `addMonths_devLag_iff` says exactly for which targets it holds.
+-- The property's first clause for ALL dates. It is FALSE for the code as it stands because of known
+-- finding D8 (`int()` truncates toward zero): refuted by `addMonths_devLag_all_dates_false` (from
+-- `addMonths_devLag_pre1970_counterexample`); `addMonths_devLag_iff` says exactly for which targets it
+-- holds (from 1970 on, or month ends), `addMonths_devLag_partial` is the part that is true.
 
 /-- D8 (known finding): a valid pair before 1970 for which the law fails — already with lag 0:
 `add_months(date(1969,12,15), 0.0) == date(1970,1,15)`. -/
@@ -205,13 +207,86 @@ theorem resolutionDelta_day_ordinal (d : Date) (q : Int) (neg : Bool)
     (resolutionDelta d q .day neg).ordinal = d.ordinal + (if neg then -q else q) := by
   rw [resolutionDelta_day]; exact addDays_ordinal d _ h1 h2
 
--- OPEN standardizeResolution_units
---   theorem standardizeResolution_units (q : Int) :
---       standardizeResolution q "month" = .ok (q, .month) ∧ standardizeResolution q "Quarters" = .ok (q * 3, .month) ∧
---       standardizeResolution q "year" = .ok (q * 12, .month) ∧ standardizeResolution q "days" = .ok (q, .day) ∧
---       standardizeResolution q "week" = .ok (q * 7, .day) ∧ standardizeResolution q "period" = .error .valueError
--- (the kernel cannot evaluate `String.toLower` / `String.splitOn`; the unit dispatch is compared with the
---  compiled model on every unit spelling by the correspondence)
+/-! unit dispatch (`lowerHas u s` = `s in u.lower()`): general statements following the code's if-chain
+order, then the table over every spelling the harness uses -/
+theorem standardizeResolution_month (q : Int) (u : String) (h : lowerHas u "month" = true) :
+    standardizeResolution q u = .ok (q, .month) := by
+  simp [standardizeResolution, h]
+
+theorem standardizeResolution_quarter (q : Int) (u : String) (h0 : lowerHas u "month" = false)
+    (h : lowerHas u "quarter" = true) : standardizeResolution q u = .ok (q * 3, .month) := by
+  simp [standardizeResolution, h0, h]
+
+theorem standardizeResolution_year (q : Int) (u : String) (h0 : lowerHas u "month" = false)
+    (h1 : lowerHas u "quarter" = false) (h : lowerHas u "year" = true) :
+    standardizeResolution q u = .ok (q * 12, .month) := by
+  simp [standardizeResolution, h0, h1, h]
+
+theorem standardizeResolution_day (q : Int) (u : String) (h0 : lowerHas u "month" = false)
+    (h1 : lowerHas u "quarter" = false) (h2 : lowerHas u "year" = false) (h : lowerHas u "day" = true) :
+    standardizeResolution q u = .ok (q, .day) := by
+  simp [standardizeResolution, h0, h1, h2, h]
+
+theorem standardizeResolution_week (q : Int) (u : String) (h0 : lowerHas u "month" = false)
+    (h1 : lowerHas u "quarter" = false) (h2 : lowerHas u "year" = false) (h3 : lowerHas u "day" = false)
+    (h : lowerHas u "week" = true) : standardizeResolution q u = .ok (q * 7, .day) := by
+  simp [standardizeResolution, h0, h1, h2, h3, h]
+
+theorem standardizeResolution_error (q : Int) (u : String) (h0 : lowerHas u "month" = false)
+    (h1 : lowerHas u "quarter" = false) (h2 : lowerHas u "year" = false) (h3 : lowerHas u "day" = false)
+    (h4 : lowerHas u "week" = false) : standardizeResolution q u = .error .valueError := by
+  simp [standardizeResolution, h0, h1, h2, h3, h4]
+
+/-- the table over every unit spelling the harness uses -/
+theorem standardizeResolution_units (q : Int) :
+    (∀ u ∈ ["month", "months", "Month", "MONTHS", "3-monthly", "yearmonth"],
+      standardizeResolution q u = .ok (q, .month)) ∧
+    (∀ u ∈ ["quarter", "quarters", "Quarter", "Quarters", "per quarter"],
+      standardizeResolution q u = .ok (q * 3, .month)) ∧
+    (∀ u ∈ ["year", "years", "YEAR", "half-year"], standardizeResolution q u = .ok (q * 12, .month)) ∧
+    (∀ u ∈ ["day", "days", "Day", "weekday", "calendar days"], standardizeResolution q u = .ok (q, .day)) ∧
+    (∀ u ∈ ["week", "weeks", "WEEK", "biweekly"], standardizeResolution q u = .ok (q * 7, .day)) ∧
+    (∀ u ∈ ["timedelta", "period", ""], standardizeResolution q u = .error .valueError) := by
+  refine ⟨?_, ?_, ?_, ?_, ?_, ?_⟩ <;> intro u hu <;>
+    simp only [List.mem_cons, List.mem_nil_iff, or_false] at hu
+  · rcases hu with rfl | rfl | rfl | rfl | rfl | rfl <;> rfl
+  · rcases hu with rfl | rfl | rfl | rfl | rfl <;> rfl
+  · rcases hu with rfl | rfl | rfl | rfl <;> rfl
+  · rcases hu with rfl | rfl | rfl | rfl | rfl <;> rfl
+  · rcases hu with rfl | rfl | rfl | rfl <;> rfl
+  · rcases hu with rfl | rfl | rfl <;> rfl
+
+theorem lagUnit_month (u : String) (h : lowerHas u "month" = true) : LagUnit.parse? u = some .month := by
+  simp [LagUnit.parse?, h]
+
+theorem lagUnit_day (u : String) (h0 : lowerHas u "month" = false) (h : lowerHas u "day" = true) :
+    LagUnit.parse? u = some .day := by
+  simp [LagUnit.parse?, h0, h]
+
+theorem lagUnit_timedelta (u : String) (h0 : lowerHas u "month" = false) (h1 : lowerHas u "day" = false)
+    (h : u.toList.map Char.toLower = "timedelta".toList) : LagUnit.parse? u = some .timedelta := by
+  unfold LagUnit.parse?
+  rw [if_neg (by rw [h0]; exact Bool.false_ne_true), if_neg (by rw [h1]; exact Bool.false_ne_true),
+      if_pos (by rw [h]; exact beq_self_eq_true _)]
+
+theorem lagUnit_none (u : String) (h0 : lowerHas u "month" = false) (h1 : lowerHas u "day" = false)
+    (h : u.toList.map Char.toLower ≠ "timedelta".toList) : LagUnit.parse? u = none := by
+  unfold LagUnit.parse?
+  rw [if_neg (by rw [h0]; exact Bool.false_ne_true), if_neg (by rw [h1]; exact Bool.false_ne_true),
+      if_neg (fun hh => h (eq_of_beq hh))]
+
+/-- `calculate_dev_lag` / `Cell.dev_lag` unit dispatch on every spelling the harness uses -/
+theorem lagUnit_units :
+    (∀ u ∈ ["months", "month", "Month", "MONTHS", "dev_months", "monthday"], LagUnit.parse? u = some .month) ∧
+    (∀ u ∈ ["day", "days", "Day", "DAYS", "calendar_days", "in days"], LagUnit.parse? u = some .day) ∧
+    (∀ u ∈ ["timedelta", "Timedelta", "TIMEDELTA"], LagUnit.parse? u = some .timedelta) ∧
+    (∀ u ∈ ["timedeltas", "time", "weeks", ""], LagUnit.parse? u = none) := by
+  refine ⟨?_, ?_, ?_, ?_⟩ <;> intro u hu <;>
+    simp only [List.mem_cons, List.mem_nil_iff, or_false] at hu
+  · rcases hu with rfl | rfl | rfl | rfl | rfl | rfl <;> rfl
+  · rcases hu with rfl | rfl | rfl | rfl | rfl | rfl <;> rfl
+  · rcases hu with rfl | rfl | rfl <;> rfl
+  · rcases hu with rfl | rfl | rfl | rfl <;> rfl
 
 /-! ### 6. the model satisfies the Spec predicates the driver evaluates on the implementation -/
 
